@@ -77,7 +77,9 @@ func insertAt(t *rapid.T, set *[]*hx.Sel, s *hx.Sel) {
 	*set = ns
 }
 
-func leafSel(s *hx.Schema, con string) []*hx.Sel { return []*hx.Sel{{Kind: "field", Name: "__typename"}} }
+func leafSel(s *hx.Schema, con string) []*hx.Sel {
+	return []*hx.Sel{{Kind: "field", Name: "__typename"}}
+}
 
 // inject adds exactly one defective selection to the document. ok=false if the kind is not applicable.
 func inject(t *rapid.T, c *Case, kind string) (df Defect, ok bool) {
